@@ -598,6 +598,7 @@ func (c *wsConn) closeInFlight() {
 	c.inflightLk.Unlock()
 
 	c.handlingLk.Lock()
+	vhook("cif.cancelling", c)
 	for _, cancel := range c.handling {
 		cancel()
 	}
